@@ -54,7 +54,11 @@ Wrap(b) == { T \o IFB(b),
              DEFN(0, b) \o CALL(0),
              IPush(b) \o EVAL }
 
-B0(z) == { <<>>, Mk(1), RET, RAISE, Mk(1) \o RET, RET \o Mk(1), DEFN(1, Mk(7)), CALL(1) }
+\* RecRaise: a function that raises before its own TRY when called with false, and calls itself with false inside that
+\* TRY: the inner call is left by an exception that the outer invocation catches - the outer invocation must go on
+\* after its TRY (its definition tape's pointer is restored when a call is left by an exception)
+RecRaise == DEFN(2, VERIFY \o TRY(F \o CALL(2), <<>>) \o Mk(2)) \o T \o CALL(2)
+B0(z) == { <<>>, Mk(1), RET, RAISE, Mk(1) \o RET, RET \o Mk(1), DEFN(1, Mk(7)), CALL(1), RecRaise }
 RECURSIVE Bk(_)
 Bk(k) == IF k = 0 THEN B0(0)
          ELSE LET inner == Bk(k - 1) IN
@@ -97,7 +101,9 @@ ResAtoms(z) == { T, F, P1(0), P1(1), P1(2), P1(4), <<28, 0>>, <<28, 1>>, <<28, 3
               DEFN(1, <<29>> \o CALL(1)) \o CALL(1), <<51>>, <<8>>,
               DEFN(0, TRY(RAISE, CALL(0))) \o CALL(0), DEFN(0, TRY(CALL(0), T)) \o CALL(0), DEFN(0, T \o IFB(CALL(0))) \o CALL(0),
               \* operand size bytes with the top bit set: the read must fail, never move the pointer backwards
-              <<49, 254>>, <<50, 254>>, <<50, 128>>, <<3, 255>>, <<10, 254>>, <<17, 255>>, <<64, 128>>, <<9, 254>> }
+              <<49, 254>>, <<50, 254>>, <<50, 128>>, <<3, 255>>, <<10, 254>>, <<17, 255>>, <<64, 128>>, <<9, 254>>, RecRaise,
+              \* bitwise instructions on operands of different lengths, either one on top (zero padding must end)
+              P1(2) \o P1(1) \o <<88>>, P1(1) \o P1(2) \o <<88>>, P1(2) \o P1(1) \o <<87>>, P1(1) \o P1(2) \o <<86>> }
 RECURSIVE Progs(_, _)
 Progs(A, n) == IF n = 0 THEN {<<>>} ELSE LET R == Progs(A, n - 1) IN R \cup Cat(R, A)
 LimTriples == {<<a, b, c>> : a \in {1, 2, 3}, b \in {1, 2, 4}, c \in {1, 2, 3}}
